@@ -25,6 +25,7 @@ type Profile struct {
 	FancyNames           bool // column/table names that need case handling
 	ScalarBias           int  // extra weight for scalar columns (index-heavy profiles)
 	ImmutableWeak        bool // allow immutable weak-reference columns (known finding otherwise excluded)
+	OptIndexes           bool // schema indexes may include optional columns (references too)
 }
 
 var (
@@ -33,7 +34,7 @@ var (
 	// ProfileRefs is reference heavy.
 	ProfileRefs = Profile{MinTables: 2, MaxTables: 4, MinCols: 1, MaxCols: 4, Refs: 8, Indexes: 0, Roots: true, BoundedSets: true}
 	// ProfileIndex is index heavy.
-	ProfileIndex = Profile{MinTables: 1, MaxTables: 2, MinCols: 2, MaxCols: 5, Refs: 1, Indexes: 2, Enums: true, Roots: true, ScalarBias: 6}
+	ProfileIndex = Profile{MinTables: 1, MaxTables: 2, MinCols: 2, MaxCols: 5, Refs: 1, Indexes: 2, Enums: true, Roots: true, ScalarBias: 6, OptIndexes: true}
 	// ProfileCodec covers the full type space.
 	ProfileCodec = Profile{MinTables: 1, MaxTables: 3, MinCols: 1, MaxCols: 6, Refs: 2, Indexes: 2, Enums: true, AnyEnums: true, AllMapKeys: true, Constraints: true, Immutable: true, Ephemeral: true, Roots: true, BoundedSets: true}
 )
@@ -83,7 +84,7 @@ func GenSchema(t *rapid.T, p Profile) Schema {
 		// schema indexes over scalar columns
 		var scalars []string
 		for _, c := range tb.Cols {
-			if c.Shape() == ShScalar && !c.Ephemeral {
+			if (c.Shape() == ShScalar || (p.OptIndexes && c.Shape() == ShOpt)) && !c.Ephemeral {
 				scalars = append(scalars, c.Name)
 			}
 		}
